@@ -227,18 +227,23 @@ def load_corpus(pid):
 
 
 def write_replay(pid, payload):
-    d = VERIF / "replays"
-    d.mkdir(exist_ok=True)
+    d = Path(os.environ.get("VERIF_REPLAY_DIR", VERIF / "replays"))
+    d.mkdir(parents=True, exist_ok=True)
     h = hashlib.sha1(json.dumps(payload, sort_keys=True, default=str).encode()).hexdigest()[:10]
     p = d / f"{pid}-{h}.json"
     with open(p, "w") as f:
         json.dump(payload, f, indent=1, sort_keys=True, default=str)
-    return p.relative_to(VERIF)
+    try:
+        return p.relative_to(VERIF)
+    except ValueError:
+        return p
 
 
 def write_evidence(pid, tier, seed, cov, assumptions, wall, violations):
-    d = VERIF / "evidence"
-    d.mkdir(exist_ok=True)
+    # VERIF_EVIDENCE_DIR: used only when the checks are exercised against seeded changes, so that
+    # the committed evidence (always from a run against /repo itself) is not overwritten
+    d = Path(os.environ.get("VERIF_EVIDENCE_DIR", VERIF / "evidence"))
+    d.mkdir(parents=True, exist_ok=True)
     ev = {
         "property_id": pid, "tier": tier, "seed": seed, "level": "proof",
         "coverage": cov, "assumptions": assumptions, "wall_s": round(wall, 2),
